@@ -7,6 +7,7 @@ import (
 	"encoding/hex"
 	"fmt"
 	"hash"
+	"os"
 	"sort"
 	"strings"
 	"time"
@@ -297,6 +298,39 @@ func (e *Env) observe(kind string, op *Op, built *Built, res *abci.ResponseDeliv
 	si := &StepInfo{Seq: e.seqNo, Kind: kind, Height: e.Blk.Height, Op: op, Built: built, Res: res, Events: evs, Prev: prev, Cur: cur, TxBytes: txb}
 	si.OK = res == nil || res.Code == 0
 	si.Edges, si.Minted, si.Burned = parseBank(evs)
+	if wd := os.Getenv("VERIF_WATCH_DATA"); wd != "" && e.Verbose && (prev.Order != cur.Order || prev.Model != cur.Model) {
+		desc := func(s *Snap) string {
+			out := ""
+			if m, ok := s.Model.Metas[wd]; ok {
+				out += fmt.Sprintf("meta{st=%d order=%d orders=%v created=%d dur=%d commits=%d} ", m.Status, m.OrderId, m.Orders, m.CreatedAt, m.Duration, len(m.Commits))
+			} else {
+				out += "meta{absent} "
+			}
+			for _, id := range orderIDs(s.Order) {
+				o := s.Order.Orders[id]
+				if o.DataId == wd {
+					out += fmt.Sprintf("O%d{st=%d op=%d rep=%d shards=%v dur=%d} ", id, o.Status, o.Operation, o.Replica, o.Shards, o.Duration)
+					for _, sid := range o.Shards {
+						if sh, ok := s.Order.Shards[sid]; ok {
+							out += fmt.Sprintf("S%d{st=%d o=%d c=%d d=%d r=%d} ", sid, sh.Status, sh.OrderId, sh.CreatedAt, sh.Duration, len(sh.RenewInfos))
+						}
+					}
+				}
+			}
+			for h, ds := range s.Model.Expired {
+				for _, d := range ds {
+					if d == wd {
+						out += fmt.Sprintf("expiry@%d ", h)
+					}
+				}
+			}
+			return out
+		}
+		a, b := desc(prev), desc(cur)
+		if a != b {
+			e.logf("WATCH h=%d %s: %s", si.Height, kind, b)
+		}
+	}
 	if e.Verbose && len(si.Edges) > 0 && kind != "tx" {
 		for _, ed := range si.Edges {
 			e.logf("h=%d %s edge %s -> %s : %s", si.Height, kind, fmtAddr(ed.From), fmtAddr(ed.To), ed.Amt)
